@@ -51,6 +51,7 @@ def gen(rng, tier, i):
             chaos["capacity"] = 1 << 20
         sc.net["chaos"] = chaos
         sc.net["spawn_yield"] = rng.choice([0, 300])
+    sc.net["lock_yield"] = rng.choice([0, 100, 500])   # seeded scheduling points at the asynchronous locks
     hsize = rng.choice([0, 1, 3, 100])
     sc.cfg["metrics"]["historySize"] = hsize
     sc.cfg["ioParams"] = {"bufferSize": rng.choice([512, 4096, 65536]), "useSplice": bool(splice)}
@@ -73,8 +74,16 @@ def gen(rng, tier, i):
     n = rng.choice([3, 5, 8, 12, 20, 40]) if tier == "thorough" else rng.choice([3, 5, 8, 12, 20])
     conns = []
     span = rng.choice([500, 3000, 8000])
+    # a crowd: far more connections ending within one collection period than any queue between the collector and the log holds
+    crowd = not splice and rng.random() < 0.03
+    if crowd:
+        n = rng.choice([130, 220])
+        span = rng.choice([100, 600])
+        sc.cfg["metrics"]["historySize"] = hsize = rng.choice([3, 1000])
     for k in range(n):
         kind = wchoice(rng, KINDS)
+        if crowd:
+            kind = rng.choice(["deny", "deny", "badreq", "ok", "refused"])
         if kind == "tlsfail" and lt is None:
             kind = "badreq"
         if splice and kind in ("abort-mid",):
@@ -115,6 +124,8 @@ def gen(rng, tier, i):
         elif kind in ("ok", "ok-early", "abort-mid", "idle"):
             seed = rng.getrandbits(60) | 1
             c2s, s2c = rng.choice([0, 1, 700, 9000, 70000]), rng.choice([0, 1, 700, 9000, 70000])
+            if crowd:
+                c2s, s2c = rng.choice([0, 1, 700]), rng.choice([0, 1, 700])
             hdr = tag_header(seed, c2s, s2c)
             early = kind == "ok-early"
             hs, proto = sc.client_handshake(li, oip, oport, early=hdr if early else b"", variant=variant)
